@@ -16,7 +16,7 @@ res = parse(sys.argv[1], 'quick')
 if len(sys.argv) > 2:
     for sid, r in parse(sys.argv[2], 'thorough').items():
         if res.get(sid, {}).get('exit') != 1: res[sid] = r
-rebased = {'C02-1', 'C06-1', 'C06-2', 'C08-2', 'C11-2'}
+rebased = {'C02-1', 'C06-1', 'C06-2', 'C08-2', 'C11-2'}   # ported to the current HEAD after fix: commits changed their context
 notes = json.load(open(os.path.join(root, 'notes.json'))) if os.path.exists(os.path.join(root, 'notes.json')) else {}
 results = {}
 rows = []
